@@ -182,6 +182,50 @@ def minimise(prop, spec, schedule, violations, runs=2000, secs=60):
                     if chunk == 1 and not progressed:
                         break
                     chunk = chunk // 2 if chunk > 1 else (1 if progressed else 0)
+        # 4b. stream operations: fewer paths / arguments, simpler consumer, then file contents line by line
+        for ti in range(len(best[0]["tasks"])):
+            for oi in range(len(best[0]["tasks"][ti]["ops"])):
+                op = best[0]["tasks"][ti]["ops"][oi]
+                key = "paths" if op["op"] == "stream" else "argv" if op["op"] == "cli" else None
+                if key is None:
+                    continue
+                i = len(op[key]) - 1
+                while i >= 0 and budget.ok():
+                    cur = best[0]["tasks"][ti]["ops"][oi][key]
+                    if len(cur) > 1 and i < len(cur):
+                        s2 = copy.deepcopy(best[0])
+                        del s2["tasks"][ti]["ops"][oi][key][i]
+                        if keep(s2, best[1]):
+                            changed = True
+                    i -= 1
+                if op["op"] == "stream" and (op.get("consumer") or {}).get("k") == "take":
+                    s2 = copy.deepcopy(best[0])
+                    s2["tasks"][ti]["ops"][oi]["consumer"] = {"k": "drain"}
+                    if keep(s2, best[1]):
+                        changed = True
+        for path in list(((best[0].get("fs") or {}).get("files") or {})):
+            if not budget.ok() or path not in best[0]["fs"]["files"]:
+                continue
+            referenced = any(path in (op.get("paths") or ()) or path in (op.get("argv") or ()) or op.get("path") == path and op["op"] == "write"
+                             for t in best[0]["tasks"] for op in t["ops"])
+            if not referenced or any(op.get("path") == path and op["op"] == "parse" for t in best[0]["tasks"] for op in t["ops"]):
+                continue
+            lines = best[0]["fs"]["files"][path].split("\n")
+            chunk = max(1, len(lines) // 2)
+            while chunk >= 1 and budget.ok():
+                i, progressed = 0, False
+                while i < len(lines) and budget.ok():
+                    cand = lines[:i] + lines[i + chunk:]
+                    s2 = copy.deepcopy(best[0])
+                    s2["fs"]["files"][path] = "\n".join(cand)
+                    if keep(s2, best[1]):
+                        lines = cand
+                        progressed = changed = True
+                    else:
+                        i += chunk
+                if chunk == 1 and not progressed:
+                    break
+                chunk = chunk // 2 if chunk > 1 else 1
         # 5. simplify configuration
         spec, schedule, _ = best
         for key, val in (("flavour", "inc"), ("locale", "utf-8")):
